@@ -509,6 +509,8 @@ struct Finding {
     io_step: i64,
     inflight: bool,
     engine: String,
+    /// durable_index() observed after each completed operation of `path` (before the last one if in flight)
+    durs: Vec<u64>,
 }
 
 struct GatedRun {
@@ -651,6 +653,7 @@ fn run_gated(
     };
     let mut repl: Vec<(u64, u64)> = vec![];
     let mut diverged = false;
+    let durs: std::cell::RefCell<Vec<u64>> = std::cell::RefCell::new(vec![]);
     let ops_so_far = |k: usize| path[..=k].iter().map(|e| e.op.clone()).collect::<Vec<_>>();
     let finding = |kind: &str, monitor: &str, crash: &str, detail: String, k: usize, io_step: i64, inflight: bool, out: &mut Vec<Finding>| {
         out.push(Finding {
@@ -662,6 +665,7 @@ fn run_gated(
             io_step,
             inflight,
             engine: "gated-memory".into(),
+            durs: durs.borrow().clone(),
         });
     };
     for (k, e) in path.iter().enumerate() {
@@ -795,6 +799,7 @@ fn run_gated(
             dur: d,
             fl: matches!(e.op, Op::Flush { .. }),
         };
+        durs.borrow_mut().push(d);
         if !diverged && g.states[st].fl != rep.fl {
             finding("divergence", "FlushFlag", "", format!("expected {} got {}", g.states[st].fl, rep.fl), k, -1, false, out);
         }
@@ -856,7 +861,7 @@ fn run_engine_generic<T: TypeConfig>(
     let se = match open(&live) {
         Ok(s) => s,
         Err(e) => {
-            out.push(Finding { kind: "violation".into(), monitor: "Open".into(), crash: "".into(), detail: e, path: vec![], io_step: -1, inflight: false, engine: engine.into() });
+            out.push(Finding { kind: "violation".into(), monitor: "Open".into(), crash: "".into(), detail: e, path: vec![], io_step: -1, inflight: false, engine: engine.into(), durs: vec![] });
             return;
         }
     };
@@ -864,6 +869,7 @@ fn run_engine_generic<T: TypeConfig>(
     let log = log.start(rx, None);
     let mut repl: Vec<(u64, u64)> = vec![];
     let mut rep = Reported { mem: vec![0; n], dur: 0, fl: false };
+    let mut durs: Vec<u64> = vec![];
     for (k, e) in path.iter().enumerate() {
         let before = rep.clone();
         let mut fut = op_future(&log, &e.op);
@@ -871,8 +877,21 @@ fn run_engine_generic<T: TypeConfig>(
         drop(fut);
         let ops = path[..=k].iter().map(|x| x.op.clone()).collect::<Vec<_>>();
         if !matches!(result, Some(Ok(()))) {
-            out.push(Finding { kind: "violation".into(), monitor: "OperationResult".into(), crash: "".into(), detail: format!("{result:?}"), path: ops, io_step: -1, inflight: false, engine: engine.into() });
+            out.push(Finding { kind: "violation".into(), monitor: "OperationResult".into(), crash: "".into(), detail: format!("{result:?}"), path: ops, io_step: -1, inflight: false, engine: engine.into(), durs: durs.clone() });
             break;
+        }
+        // the spec state after this operation and all the IO task's calls for it
+        let st = {
+            let mut s = e.to;
+            while let Some(nx) = g.io[s] {
+                s = nx;
+            }
+            s
+        };
+        // quiescence: the IO task publishes durable_index last; wait for the predicted value
+        let t0 = Instant::now();
+        while log.durable_index() != g.states[st].dur && t0.elapsed() < Duration::from_secs(3) {
+            std::thread::sleep(Duration::from_millis(1));
         }
         wait_quiet(&log);
         let mem_after = read_log(&log, m);
@@ -884,26 +903,18 @@ fn run_engine_generic<T: TypeConfig>(
             }
         }
         rep = Reported { mem: mem_after.clone(), dur: log.durable_index(), fl: matches!(e.op, Op::Flush { .. }) };
-        // conformance of what the log reports (same model, the store is only slower)
-        let st = {
-            // follow op edge + io edges to the next idle state
-            let mut s = e.to;
-            while let Some(nx) = g.io[s] {
-                s = nx;
-            }
-            s
-        };
+        durs.push(rep.dur);
         if mem_after[1..=(m as usize)] != g.states[st].mem[..] || rep.dur != g.states[st].dur {
             out.push(Finding { kind: "divergence".into(), monitor: "Reported".into(), crash: "".into(),
                 detail: format!("expected mem {:?} dur {} got mem {:?} dur {}", g.states[st].mem, g.states[st].dur, &mem_after[1..=(m as usize)], rep.dur),
-                path: ops.clone(), io_step: -1, inflight: false, engine: engine.into() });
+                path: ops.clone(), io_step: -1, inflight: false, engine: engine.into(), durs: durs.clone() });
         }
         // process crash image: copy of the data directory now
         stats.states.fetch_add(1, Ordering::Relaxed);
         stats.crash_checks.fetch_add(1, Ordering::Relaxed);
         let _ = std::fs::remove_dir_all(&copy);
         if let Err(e2) = crate::logstore::copy_dir(&live, &copy) {
-            out.push(Finding { kind: "divergence".into(), monitor: "Copy".into(), crash: "process".into(), detail: e2, path: ops, io_step: -1, inflight: false, engine: engine.into() });
+            out.push(Finding { kind: "divergence".into(), monitor: "Copy".into(), crash: "process".into(), detail: e2, path: ops, io_step: -1, inflight: false, engine: engine.into(), durs: durs.clone() });
             break;
         }
         match open(&copy) {
@@ -912,10 +923,10 @@ fn run_engine_generic<T: TypeConfig>(
                 let rec = read_log(&l2, m);
                 drop(l2);
                 for (mon, detail) in check_monitors(&rec, &rep, &mem_after, false, &repl, true) {
-                    out.push(Finding { kind: "violation".into(), monitor: mon, crash: "process".into(), detail, path: ops.clone(), io_step: -1, inflight: false, engine: engine.into() });
+                    out.push(Finding { kind: "violation".into(), monitor: mon, crash: "process".into(), detail, path: ops.clone(), io_step: -1, inflight: false, engine: engine.into(), durs: durs.clone() });
                 }
             }
-            Err(e2) => out.push(Finding { kind: "violation".into(), monitor: "Reopen".into(), crash: "process".into(), detail: e2, path: ops, io_step: -1, inflight: false, engine: engine.into() }),
+            Err(e2) => out.push(Finding { kind: "violation".into(), monitor: "Reopen".into(), crash: "process".into(), detail: e2, path: ops, io_step: -1, inflight: false, engine: engine.into(), durs: durs.clone() }),
         }
         let _ = std::fs::remove_dir_all(&copy);
     }
